@@ -159,7 +159,7 @@ impl<'a> QState<'a> {
                     let live = self.m.live_of(oi);
                     if !live.is_empty() {
                         let b = live[*n as usize % live.len()];
-                        let at_max = (b as u32) == u32::MAX || self.m.archs[oi].ver >= u32::MAX as u64;
+                        let at_max = near_max(b as u32 as u64) || near_max(self.m.archs[oi].ver);
                         if !at_max || self.wrapping {
                             let r = o.a_destroy(Key::T(any_from_bits(b).unwrap()));
                             match r {
@@ -565,7 +565,7 @@ impl<W: WorldSpec> Engine<W> {
                     // writes and destroys of completed visits stand; nothing is pending
                 } else if is_overflow_panic(&c.msg) {
                     match pending {
-                        Some(t) if !wrapping && ((t as u32) == u32::MAX || self.ms[wid].archs[self.ms[wid].ents[&t].arch].ver >= u32::MAX as u64) => {
+                        Some(t) if !wrapping && (near_max(t as u32 as u64) || near_max(self.ms[wid].archs[self.ms[wid].ents[&t].arch].ver)) => {
                             self.stats.inc("F5_version_overflow_in_iter_destroy");
                             let ta = self.ms[wid].ents[&t].arch;
                             self.settle_after_panic(wid, ta, t, "ecs_iter_destroy!");
